@@ -1,6 +1,9 @@
 Generated/MacroShapes.vo Generated/MacroShapes.glob Generated/MacroShapes.v.beautified Generated/MacroShapes.required_vo: Generated/MacroShapes.v 
 Generated/MacroShapes.vio: Generated/MacroShapes.v 
 Generated/MacroShapes.vos Generated/MacroShapes.vok Generated/MacroShapes.required_vos: Generated/MacroShapes.v 
+Generated/Layout.vo Generated/Layout.glob Generated/Layout.v.beautified Generated/Layout.required_vo: Generated/Layout.v 
+Generated/Layout.vio: Generated/Layout.v 
+Generated/Layout.vos Generated/Layout.vok Generated/Layout.required_vos: Generated/Layout.v 
 Model/Macro.vo Model/Macro.glob Model/Macro.v.beautified Model/Macro.required_vo: Model/Macro.v Generated/MacroShapes.vo
 Model/Macro.vio: Model/Macro.v Generated/MacroShapes.vio
 Model/Macro.vos Model/Macro.vok Model/Macro.required_vos: Model/Macro.v Generated/MacroShapes.vos
@@ -22,6 +25,9 @@ Model/Obs.vos Model/Obs.vok Model/Obs.required_vos: Model/Obs.v Model/Types.vos 
 Model/Codec.vo Model/Codec.glob Model/Codec.v.beautified Model/Codec.required_vo: Model/Codec.v Model/Types.vo Model/Book.vo Model/Obs.vo
 Model/Codec.vio: Model/Codec.v Model/Types.vio Model/Book.vio Model/Obs.vio
 Model/Codec.vos Model/Codec.vok Model/Codec.required_vos: Model/Codec.v Model/Types.vos Model/Book.vos Model/Obs.vos
+Model/PyView.vo Model/PyView.glob Model/PyView.v.beautified Model/PyView.required_vo: Model/PyView.v Model/Types.vo Model/Book.vo Model/Obs.vo Model/Codec.vo
+Model/PyView.vio: Model/PyView.v Model/Types.vio Model/Book.vio Model/Obs.vio Model/Codec.vio
+Model/PyView.vos Model/PyView.vok Model/PyView.required_vos: Model/PyView.v Model/Types.vos Model/Book.vos Model/Obs.vos Model/Codec.vos
 Model/Rng.vo Model/Rng.glob Model/Rng.v.beautified Model/Rng.required_vo: Model/Rng.v Model/Types.vo
 Model/Rng.vio: Model/Rng.v Model/Types.vio
 Model/Rng.vos Model/Rng.vok Model/Rng.required_vos: Model/Rng.v Model/Types.vos
@@ -109,3 +115,9 @@ Properties/C17.vos Properties/C17.vok Properties/C17.required_vos: Properties/C1
 Properties/C20.vo Properties/C20.glob Properties/C20.v.beautified Properties/C20.required_vo: Properties/C20.v Generated/MacroShapes.vo Model/Macro.vo
 Properties/C20.vio: Properties/C20.v Generated/MacroShapes.vio Model/Macro.vio
 Properties/C20.vos Properties/C20.vok Properties/C20.required_vos: Properties/C20.v Generated/MacroShapes.vos Model/Macro.vos
+Properties/C19.vo Properties/C19.glob Properties/C19.v.beautified Properties/C19.required_vo: Properties/C19.v Generated/Layout.vo
+Properties/C19.vio: Properties/C19.v Generated/Layout.vio
+Properties/C19.vos Properties/C19.vok Properties/C19.required_vos: Properties/C19.v Generated/Layout.vos
+Properties/C18.vo Properties/C18.glob Properties/C18.v.beautified Properties/C18.required_vo: Properties/C18.v Model/Types.vo Model/Book.vo Model/Obs.vo Model/Codec.vo Model/PyView.vo Proofs/Grid.vo Generated/Layout.vo
+Properties/C18.vio: Properties/C18.v Model/Types.vio Model/Book.vio Model/Obs.vio Model/Codec.vio Model/PyView.vio Proofs/Grid.vio Generated/Layout.vio
+Properties/C18.vos Properties/C18.vok Properties/C18.required_vos: Properties/C18.v Model/Types.vos Model/Book.vos Model/Obs.vos Model/Codec.vos Model/PyView.vos Proofs/Grid.vos Generated/Layout.vos
